@@ -288,7 +288,8 @@ def check(run, prog, tier):
     for b, i, n in opens:
         # the failure edge of `(fd = open(..)) != -1`
         c = io.branch_cond(b.id)
-        if c is None or not any(x is n for x in walk(c)):
+        if c is None or not any(x is n or (x.get("k") == "Call" and x.get("fn") == n.get("fn") and x.get("l") == n.get("l") and show(x) == show(n)) for x in walk(c)):
+            bad.append((n.get("l"), ["the result of this open() is not tested where it is made"]))
             continue
         op, l, r = atom_of(c, True)
         fail = None
